@@ -845,7 +845,7 @@ func judgeWire(wc WireCase, o wireObs) ([]Finding, wireStats) {
 				if k := calls[len(calls)-1].Seq - 1; k < len(wc.Script) {
 					chain = wc.Script[k]
 				}
-				ctx = fmt.Sprintf("policy %s, chain %s: ", wc.Policy, chain) + ctx
+				ctx = fmt.Sprintf("chain %s: ", chain) + ctx
 				var first, repeats int
 				class, chainIn, first, repeats = wireChainRef(wc, o, chain, evs, func(key, format string, a ...any) {
 					add(key, "%s; %s", ctx, fmt.Sprintf(format, a...))
@@ -1456,11 +1456,13 @@ func (c *checker) partWire() {
 	r.Set("e_rule", "every case is one history on the real PushDispatcher + real HTTPDeliverer + real http.Transport (clone of http.DefaultTransport, no proxy) against a raw TCP target on loopback, in real time with a 1ms backoff: "+
 		"(e1) every script of wire behaviours {answer 2xx/503 and keep the connection (with and without body), answer with Connection: close, read the request and close, close unread, truncated header block} "+
 		"with retry.max+1 elements (shorter when an element is terminal by the statement), without and with an earlier exchange that leaves an idle keep-alive connection (thorough: also requests without a body); "+
-		"(e2) egress policy x every script of per-attempt resolver answers {allowed address (target answers 200/503), denied address, lookup errors, empty answers} for a host-name target. "+
-		"distinct_nontrivial gains (behaviour, fresh/reused connection, attempt<=max?, settlement) and (policy, resolver answer, attempt<=max?, sent?, settlement) classes")
+		"(e2) egress policy x every script of per-attempt resolver answers {allowed address (target answers 200/503), denied address, lookup errors, empty answers} for a host-name target; "+
+		"(e3) egress policy {redirects on + deny host / deny cidr / dns_rebind_protection (thorough: + allow list), redirects off} x every script of per-attempt redirect chains {direct answer; 302/307 (thorough: 301..308) to another allowed host or to the same host (reused connection), then 200/503/read-and-close (thorough: + Connection: close, 404, truncated answer); to the refused host; to an allowed host that redirects to the refused one; without Location; two allowed hops} - all host names are connected to the one loopback target, which answers by (Host, URI). "+
+		"distinct_nontrivial gains (behaviour, fresh/reused connection, attempt<=max?, settlement), (policy, resolver answer, attempt<=max?, sent?, settlement) and (policy, redirects on/off, where the walk ends, what ends it, attempt<=max?, settlement) classes")
 	r.Assume("part e: the transport is a clone of http.DefaultTransport without proxy (what run() uses when tracing is off); HTTP/1.1 over plain TCP on loopback only (no TLS, no HTTP/2, no proxy, no otelhttp wrapper); " +
 		"e2 connects the non-existent host name to the loopback target through Transport.DialContext, so the transport's own name resolution at dial time is not exercised (the egress check has no dial hook of its own; check and dial resolve independently, that gap is outside C06)")
 	r.Assume("part e: target behaviours whose effect depends on a race inside the client are left out: a target that closes an idle keep-alive connection while the next request is on its way, a target that stalls until the delivery timeout (virtual-time hangs are in parts a/c), and answers cut off inside the body (HTTPDeliverer reports the 2xx status; the statement says 2xx acks)")
+	r.Assume("part e3: a hop request that the transport itself repeats (net/http re-sends an idempotent GET - what a 301/302/303 hop is - on a fresh connection when a reused connection dies before the first answer byte) is counted (e3_info_hop_requests_repeated_by_the_transport), not judged: the statement bounds the requests to the configured target, which is asked exactly once per attempt; the place asked again answers the same again")
 	r.Assume("part e: a failed lookup after which the request is sent anyway (fail-open) is judged by what the target answered, not as a violation (that would be C16's business); counter e_info_sent_despite_failed_lookup")
 }
 
